@@ -67,7 +67,7 @@ func vC08Gen(c *vh.Case) vC08Sc {
 	sc.MaxDelay = []int{5, 50, 400}[r.Intn(3)]
 	sc.FailFrac = []float64{0, 0, 0.15, 0.35}[r.Intn(4)]
 	sc.HolderFrac = []float64{0.05, 0.2, 0.5, 0.9}[r.Intn(4)]
-	sc.NProv = []int{0, 1, 2, 4, 8, 14}[r.Intn(6)]
+	sc.NProv = []int{0, 1, 3, 5, 8, 14}[r.Intn(6)]
 	sc.NLocal = []int{0, 0, 0, 1, 2, 4}[r.Intn(6)]
 	if r.Intn(7) == 0 {
 		sc.CancelAt = time.Duration(1+r.Intn(3*sc.MaxDelay+20)) * time.Millisecond
@@ -88,7 +88,7 @@ func vC08AddrStrings(as []ma.Multiaddr) []string {
 }
 
 func TestVerif_C08_findprov(t *testing.T) {
-	vh.Run(t, vh.Spec{Prop: "C08", Unit: "findprov", Quick: 500, Thorough: 15000, CostMs: 15,
+	vh.Run(t, vh.Spec{Prop: "C08", Unit: "findprov", Quick: 2000, Thorough: 60000, CostMs: 5,
 		Rule:    "PRNG networks as C01 (N 1-230, thorough up to 730; K/alpha/beta menus; knowledge full/kbucket/sparse; 0-35% responders dead/erroring/silent); a pool of 0-14 providers (simulated peers, strangers, occasionally the local node; with or without addresses); each responder holds a PRNG subset, advertising each provider with or without its addresses (so the same provider is first seen without and later with addresses), some answers list a provider twice; 0-4 providers stored locally (with/without addresses); count in {0,1,2,5,K,100}; latencies 1-400 ms decide arrival order; 1/7 cancelled at a PRNG instant; 1/7 with a slow consumer; oracle over the values received (virtual receive time) and the GET_PROVIDERS requests/answers of the simulated wire log; non-trivial = at least two answers naming providers were processed and (count>0 was reached, or a provider was repeated, or count=0 with >= 2 distinct providers); distinct by (shape, count, arrival order of naming answers)",
 		Clauses: []string{"yielded-was-named", "yielded-addresses-named", "at-most-count", "repeat-only-adds-addresses", "stops-asking-at-count", "count0-yields-all-named", "channel-closed-in-time", "channel-closed-after-cancel", "repeat-seen", "count-reached-seen"}},
 		func(c *vh.Case) {
